@@ -199,6 +199,12 @@ def run(tier, seed, t0):
             cid = f"{pi_}s{schedules.index(sc)}"
             rep.obligations += 1
             if r[0] != "ok":
+                if sc.get("time_limit") is not None and "Failed to find feasible layout" in str(r[1]):
+                    # the solver was given 0 or 1 second and found no layout for a large program: there is no
+                    # second build to compare with (not a different circuit)
+                    rep.obligations -= 1
+                    hist["no layout within the injected time budget"] = hist.get("no layout within the injected time budget", 0) + 1
+                    continue
                 rep.violation({"program": text, "schedule": sc, "error": f"build {r[0]}: {r[1][:300]} (reference build succeeded)"}, True)
                 continue
             j2 = json.loads(r[1])
